@@ -44,6 +44,20 @@ func (k Keeper) HandleExpiredShard(ctx sdk.Context, shardId uint64) {
 				break
 			}
 		}
-		k.order.SetOrder(ctx, order)
+		// what is still listed may all belong elsewhere (a shard migrating in under another
+		// order, copied into this order's list when it was created): then this order's period
+		// is over with its last own shard, and it must not stay behind listing foreign shards
+		own := false
+		for _, id := range order.Shards {
+			if s, found := k.order.GetShard(ctx, id); found && s.OrderId == order.Id {
+				own = true
+				break
+			}
+		}
+		if own {
+			k.order.SetOrder(ctx, order)
+		} else {
+			k.order.RemoveOrder(ctx, order.Id)
+		}
 	}
 }
